@@ -106,3 +106,38 @@ func TestKF_SMoveBypassesLog(t *testing.T) {
 		return nil
 	})
 }
+
+func TestKF_GetKeyOnlyMissingDir(t *testing.T) {
+	db, dir := kfOpen(t, HintKeyAndRAMIdxMode, 4096)
+	if err := db.Update(func(tx *Tx) error { return tx.Put("b", []byte("k"), []byte("v"), 0) }); err != nil {
+		t.Fatal(err)
+	}
+	os.RemoveAll(dir) // the segment can no longer be opened
+	defer func() {
+		if r := recover(); r != nil {
+			t.Errorf("REPRODUCED: Get in key-only mode panics when the segment cannot be opened: %v", r)
+		}
+	}()
+	tx, _ := db.Begin(false)
+	_, _ = tx.Get("b", []byte("k"))
+	_ = tx.Rollback()
+}
+
+func TestKF_ScanShowsUncommitted(t *testing.T) {
+	db, dir := kfOpen(t, HintKeyValAndRAMIdxMode, 4096)
+	defer os.RemoveAll(dir)
+	_ = db.Update(func(tx *Tx) error { return tx.Put("b", []byte("k"), []byte("old"), 0) })
+	_ = db.Update(func(tx *Tx) error {
+		_ = tx.Put("b", []byte("k"), []byte("uncommitted"), 0)
+		return tx.Put("b", []byte("big"), make([]byte, 8192), 0)
+	})
+	_ = db.View(func(tx *Tx) error {
+		es, _ := tx.GetAll("b")
+		for _, e := range es {
+			if string(e.Value) == "uncommitted" {
+				t.Errorf("REPRODUCED: GetAll returns the value of a transaction whose Commit failed")
+			}
+		}
+		return nil
+	})
+}
